@@ -198,7 +198,7 @@ def replay(case, scratch):
 
 # ---------------------------------------------------------------- family A: grammar product
 
-NAMES = ['a', 'b', 'q', 'zz', 'w']          # rotated by the seed (presentation only)
+NAMES = ['a', 'b', 'q', 'w', 'k']           # one-character names, rotated by the seed (presentation only)
 
 TAGS_A = ['TIMESTAMP', 'MANIFEST', 'IGNORE', 'DATA', 'DIST', 'EBUILD', 'MISC', 'AUX',
           'FOO', 'data', '']
